@@ -68,13 +68,14 @@ def set (d : Dir) (k : Key) (v : Bytes) : Dir × Res :=
   else if fileNameOk n then (apply d (setOps n v), .ok)
   else (d, .err)
 
-/-- `Get` opens read-only and reads until `Read` returns 0 bytes; opening the directory itself
-    succeeds and reading it fails with 0 bytes, so the directory names yield an empty value. -/
+/-- `Get` opens read-only and reads until `Read` returns 0 bytes. A key whose file would be the storage directory itself
+    (or its parent) is refused (F52 repair; before it opening the directory succeeded and reading it failed with 0
+    bytes: such a key was "found", with an empty value, without ever having been set). -/
 def get (d : Dir) (k : Key) : Res :=
   let n := fileName k
   if isTempName n then .err
   else if n.contains 47 then .unmodelled
-  else if isDirName n then .val []
+  else if isDirName n then .err
   else match lookup d n with
     | some c => .val c
     | none => .err
@@ -82,7 +83,8 @@ def get (d : Dir) (k : Key) : Res :=
 def delete (d : Dir) (k : Key) : Dir × Res :=
   let n := fileName k
   if isTempName n then (d, .err)
-  else if n.contains 47 || isDirName n then (d, .unmodelled)
+  else if n.contains 47 then (d, .unmodelled)
+  else if isDirName n then (d, .err)     -- F52 repair (before it `Delete("")` removed the storage directory when it was empty)
   else if (lookup d n).isSome then (erase d n, .ok) else (d, .err)
 
 /-- the suffix is compared with the file names as they are (not stripped) -/
